@@ -68,6 +68,8 @@ def plan(prop):
     if prop in ('C05', 'C01'):
         for jp in (((1, 1),) if Q else ((1, 1), (2, 1), (1, 1, 1))):
             obs.append((core, lambda ctx, jp=jp: co.ob_group_state(ctx, jp)))
+        for jp in (((2, 1),) if Q else ((1, 1), (2, 1), (2, 2))):
+            obs.append((core, lambda ctx, jp=jp: co.ob_group_state(ctx, jp, 'insertion')))
         for jp in (((1, 1), (2, 1)) if Q else ((1, 1), (2, 1), (1, 2), (1, 1, 1), (2, 2))):
             obs.append((core, lambda ctx, jp=jp: co.ob_shared_resource_state(ctx, jp)))
     if prop == 'C05':
